@@ -194,6 +194,8 @@ class SOCKS5(SOCKSBase):
         if isinstance(host, IPv4Address):
             addr_bytes = b'\1' + host.packed
         elif isinstance(host, IPv6Address):
+            if getattr(host, 'scope_id', None) is not None:
+                raise SOCKSProtocolError(f'SOCKS5 cannot express a scoped IPv6 address: {host}')
             addr_bytes = b'\4' + host.packed
         else:
             assert isinstance(host, str)
